@@ -214,6 +214,34 @@ def run(ctx):
             shutil.rmtree(P("c.vcz"), ignore_errors=True)
             vcf2zarr.encode(P("ref.icf"), P("c.vcz"), variants_chunk_size=v2, samples_chunk_size=s2, worker_processes=0)
             check(dict(kind="chunk-sizes", variants_chunk_size2=v2, samples_chunk_size2=s2), P("c.vcz"))
+            # per-array variants chunk sizes through an edited schema: a proper divisor of the schema-level size keeps every
+            # partition chunk-aligned, so again only the grid may change
+            if vcs > 1:
+                import io
+
+                buf = io.StringIO()
+                vcf2zarr.mkschema(P("ref.icf"), buf, variants_chunk_size=vcs, samples_chunk_size=scs)
+                sd = json.loads(buf.getvalue())
+                lock = ("call_genotype", "call_genotype_mask", "call_genotype_phased", "variant_id", "variant_id_mask", "variant_contig", "variant_position", "variant_length")
+                edited = {}
+                for f in sd["fields"]:
+                    if f["name"] not in lock and f["chunks"] and f["chunks"][0] > 1 and r.random() < 0.6:
+                        f["chunks"][0] = r.choice([k for k in range(1, f["chunks"][0]) if f["chunks"][0] % k == 0])
+                        edited[f["name"]] = f["chunks"][0]
+                if edited:
+                    with open(P("sch.json"), "w") as fh:
+                        json.dump(sd, fh)
+                    for ep in (None, r.choice([2, 3])):
+                        shutil.rmtree(P("e.vcz"), ignore_errors=True)
+                        try:
+                            if ep is None:
+                                vcf2zarr.encode(P("ref.icf"), P("e.vcz"), schema_path=P("sch.json"), worker_processes=0)
+                            else:
+                                pipeline.dencode(P("ref.icf"), P("e.vcz"), ep, order="shuffle", rnd=r, schema_path=P("sch.json"))
+                            check(dict(kind="schema-chunk-divisors", edited=edited, encode_partitions=ep), P("e.vcz"))
+                        except Exception as e:  # noqa: BLE001
+                            ctx.fail(dict(doc0, kind="schema-chunk-divisors", edited=edited, encode_partitions=ep), dict(error=f"{type(e).__name__}: {e}"[:200]),
+                                     "encoding with per-array variants chunk sizes that divide the schema's failed")
             # max_variant_chunks prefix
             nchunks = -(-n // vcs)
             cap = r.choice([1, nchunks, nchunks + 1, r.randint(1, nchunks)])
